@@ -143,6 +143,7 @@ class Interp:
         self.sites: Dict[Tuple, Site] = {}
         self.ann: Dict[Tuple[str, int], K] = {}
         self.ann_entry: Dict[Tuple[str, int], K] = {}
+        self.ann_call: Dict[Tuple[str, int], K] = {}
         self._memo: Dict[Tuple, K] = {}
         self._in_progress: set = set()
         self.closures: Dict[str, Closure] = {}
@@ -180,6 +181,8 @@ class Interp:
                 return k
         if arg.arg in T.DUCK_NAMES:
             return Obj("Hypergraph")
+        if arg.arg in T.CLIENT_PARAM_BY_NAME and fi.cls is None and not fi.module.name.startswith(T.CLIENT_NAME_EXCLUDED_PREFIXES):
+            return T.CLIENT_PARAM_BY_NAME[arg.arg]
         return TOP
 
     def _ann_to_kind(self, m: ModuleInfo, ann: ast.AST) -> K:
@@ -299,13 +302,22 @@ class Interp:
         if fr.ctx == "entry":
             old = self.ann_entry.get(key)
             self.ann_entry[key] = k if old is None else join(old, k)
+        elif fr.record:
+            old = self.ann_call.get(key)
+            self.ann_call[key] = k if old is None else join(old, k)
 
     def kind_at(self, fi: FunctionInfo, node: ast.AST) -> K:
         """Kind of an expression: in the declared (entry) context when there is one, else joined over contexts."""
         key = (fi.qualname, id(node))
         k = self.ann_entry.get(key)
         if k is None:
-            k = self.ann.get(key, TOP)
+            return self.ann.get(key, TOP)
+        if "?" in repr(k):
+            # the declared context leaves it (partly) unknown - e.g. an un-annotated `mapping` parameter - while the
+            # call contexts determine it
+            j = self.ann_call.get(key)
+            if j is not None and "?" not in repr(j):
+                return j
         return k
 
     # ================================================================ statements
@@ -845,6 +857,8 @@ class Interp:
                 if attr in ci.methods:
                     return Fn(ci.methods[attr].qualname, recv)
                 return Fn("missing:" + recv.cls + "." + attr, recv) if attr not in ci.all_self_attrs() else TOP
+            if recv.cls == "LabelEncoder" and attr == "classes_":
+                return Lst(NODE, sorted=True)  # sorted labels == row order of the encoder
             try:
                 ci = self.prog.cls(recv.cls)
             except AnalysisError:
